@@ -13,24 +13,25 @@ Proof.
 Qed.
 
 (** one goroutine at a time uses the response writer; nothing begins to use it after the handler returned *)
-Theorem mp_exclusive_lemma rs tr s :
-  mprun true (mpinit rs) tr = Some s -> both_using s = false /\ m_late s = 0.
+Theorem mp_exclusive_lemma rs o tr s :
+  mprun true (mpinit_open rs o) tr = Some s -> both_using s = false /\ m_late s = 0.
 Proof.
-  intros R. destruct (mprun_inv rs tr _ _ (mpinv_init rs) R) as [Ah Ak Bh Bk Cd Dh Eo Gt Hl It [Jh Jk] Kd].
-  split; [|exact Hl]. unfold both_using. rewrite Bh, Bk. unfold hflush, kflush, hdone in *.
+  intros R. destruct (mprun_inv rs tr _ _ (mpinv_init_open rs o) R) as [Ah Ak Bh Bk Cd Dh Eo Gt Hl It [Jh Jk] Kd].
+  split; [|exact Hl]. unfold both_using. rewrite Bh, Bk. unfold hflush, hlock, kflush, hdone in *.
   destruct (m_k s); cbn; rewrite ?andb_false_r; try reflexivity.
   destruct (m_h s) eqn:H; cbn; try reflexivity.
+  - destruct (m_hf s) eqn:Hf, (m_kf s) eqn:Kf; cbn in *; try reflexivity; destruct (m_holder s) as [[|]|]; discriminate.
   - destruct (m_hf s) eqn:Hf, (m_kf s) eqn:Kf; cbn in *; try reflexivity; destruct (m_holder s) as [[|]|]; discriminate.
   - destruct (Cd eq_refl) as (_ & _ & U). cbn in U. now rewrite U.
 Qed.
 
 (** every response is written exactly once, in order: what is on the wire followed by what is pending is what was
     handed to the aggregator; once the handler has returned everything the operation produced is on the wire *)
-Theorem mp_once_in_order_lemma rs tr s :
-  mprun true (mpinit rs) tr = Some s ->
+Theorem mp_once_in_order_lemma rs o tr s :
+  mprun true (mpinit_open rs o) tr = Some s ->
   written s ++ m_pending s ++ m_todo s = rs /\ (returned s = true -> written s = rs).
 Proof.
-  intros R. destruct (mprun_inv rs tr _ _ (mpinv_init rs) R) as [Ah Ak Bh Bk Cd Dh Eo Gt Hl It [Jh Jk] Kd].
+  intros R. destruct (mprun_inv rs tr _ _ (mpinv_init_open rs o) R) as [Ah Ak Bh Bk Cd Dh Eo Gt Hl It [Jh Jk] Kd].
   split.
   - now rewrite app_assoc, Eo.
   - unfold returned, hdone, adding in *. destruct (m_h s); try discriminate. intros _.
@@ -41,25 +42,28 @@ Qed.
 (** no deadlock: until the handler has returned and the ticker has ended some goroutine can step; the handler is
     blocked only while the ticker is inside a flush, which the ticker can continue; a ticker that is between flushes
     can see the signal as soon as it is sent *)
-Theorem mp_progress_lemma rs tr s :
-  mprun true (mpinit rs) tr = Some s ->
+Theorem mp_progress_lemma rs o tr s :
+  mprun true (mpinit_open rs o) tr = Some s ->
   (returned s = false -> mpstep true s MLHandler <> None \/ mpstep true s MLTicker <> None) /\
   (m_k s = MKFlush -> mpstep true s MLTicker <> None \/ mpstep true s MLHandler <> None) /\
   (m_k s = MKSelect -> m_done s = true -> mpstep true s MLSeeDone <> None).
 Proof.
-  intros R. destruct (mprun_inv rs tr _ _ (mpinv_init rs) R) as [Ah Ak Bh Bk Cd Dh Eo Gt Hl It [Jh Jk] Kd].
-  destruct s as [todo h hf k kf holder pending added out done uh uk late].
-  unfold hflush, kflush, hdone, adding, returned in *. flds.
+  intros R. destruct (mprun_inv rs tr _ _ (mpinv_init_open rs o) R) as [Ah Ak Bh Bk Cd Dh Eo Gt Hl It [Jh Jk] Kd].
+  destruct s as [todo h hf k kf holder pending added out done uh uk late opn].
+  unfold hflush, hlock, kflush, hdone, adding, returned in *. flds.
   repeat split.
-  - intros Hr. destruct h; cbn [mpstep m_h m_todo m_holder m_hf m_k m_kf]; try (left; discriminate).
+  - intros Hr. destruct h; cbn [mpstep m_h m_todo m_holder m_hf m_k m_kf m_open]; try (left; discriminate).
     + destruct todo; [left; discriminate|]. destruct holder as [[|]|]; [cbn in Ah; discriminate| |left; discriminate].
       right. destruct k; cbn in Ak; try discriminate. destruct kf; cbn in Ak, Jk |- *; try discriminate; destruct pending; discriminate.
     + destruct hf; cbn in Jh |- *; try discriminate; try (left; destruct pending; discriminate).
       destruct holder as [[|]|]; [cbn in Ah; discriminate| |left; discriminate].
       right. destruct k; cbn in Ak; try discriminate. destruct kf; cbn in Ak, Jk |- *; try discriminate; destruct pending; discriminate.
+    + destruct hf; cbn in Jh |- *; try discriminate; try (left; destruct opn; discriminate).
+      destruct holder as [[|]|]; [cbn in Ah; discriminate| |left; discriminate].
+      right. destruct k; cbn in Ak; try discriminate. destruct kf; cbn in Ak, Jk |- *; try discriminate; destruct pending; discriminate.
   - intros ->. cbn [mpstep m_k m_kf]. destruct kf; cbn in Jk |- *; try discriminate; try (left; destruct pending; discriminate).
     destruct holder as [[|]|]; [|cbn in Ak; discriminate|left; discriminate].
-    right. destruct h; cbn in Ah; try discriminate. destruct hf; cbn in Ah, Jh |- *; try discriminate; destruct pending; discriminate.
+    right. destruct h; cbn in Ah; try discriminate; destruct hf; cbn in Ah, Jh |- *; try discriminate; try (destruct pending; discriminate); destruct opn; discriminate.
   - intros -> ->. cbn. discriminate.
 Qed.
 
@@ -74,6 +78,6 @@ Proof. eexists. split; [vm_compute; reflexivity|reflexivity]. Qed.
 Example mp_sample_runs :
   exists s, mprun true (mpinit [1; 2; 3])
               [MLHandler; MLTick; MLTicker; MLTicker; MLTicker; MLTicker; MLTicker; MLTicker; MLTicker; MLHandler; MLHandler; MLHandler;
-               MLHandler; MLHandler; MLHandler; MLHandler; MLHandler; MLHandler; MLHandler; MLHandler; MLHandler; MLTick; MLTicker; MLTicker; MLTicker; MLSeeDone] = Some s /\
+               MLHandler; MLHandler; MLHandler; MLHandler; MLHandler; MLHandler; MLHandler; MLHandler; MLHandler; MLHandler; MLHandler; MLHandler; MLTick; MLTicker; MLTicker; MLTicker; MLSeeDone] = Some s /\
             returned s = true /\ m_k s = MKEnd /\ m_out s = [(MK, [1]); (MH, [2; 3])].
 Proof. eexists. split; [vm_compute; reflexivity|repeat split; reflexivity]. Qed.
